@@ -33,8 +33,63 @@ def search_tiles(job):
     return _try(["shape:1x1", "shape:2x3", "shape:255x2", "shape:256x2", "shape:257x2", "shape:512x2", "shape:513x2", "edits"], ["tiles", "open", "inventory"])
 
 
+def _row_records():
+    """the real recalculate_row_info on rows that hold cells without a record of their own (merged placeholders, formula-error cells) between
+    cells that have one: offset k is -1 exactly for those, every other cell's record lies at its own offset, records are contiguous"""
+    import struct
+    from numbers_parser import Document
+    from numbers_parser.cell import Cell
+    warnings.simplefilter("ignore")
+    doc = Document(num_rows=4, num_cols=6)
+    t = doc.sheets[0].tables[0]
+    vals = ["left", 7.5, True, "x" * 9, 42.0, "end"]
+    for r in range(4):
+        for c in range(6):
+            t.write(r, c, vals[(r + c) % 6])
+    t.merge_cells("B2:C2")          # row 1: placeholder at column 2
+    t.merge_cells("E3:F4")          # rows 2, 3: placeholders at the end of the row
+    err = bytearray(12)
+    err[0], err[1] = 5, 8           # a formula-error cell as the reader creates it: it cannot be written
+    t._data[0][2] = Cell._from_storage(t._table_id, 0, 2, err, doc._model)
+    t._data[3][0] = Cell._from_storage(t._table_id, 3, 0, err, doc._model)
+    model, data = doc._model, t._data
+    for row in range(4):
+        bufs = [data[row][c]._to_buffer() for c in range(6)]
+        info = model.recalculate_row_info(t._table_id, data, 0, row)
+        offs = list(struct.unpack(f"<{len(info.cell_offsets) // 2}h", info.cell_offsets))
+        pos, want = 0, []
+        for b in bufs:
+            if b is None:
+                want.append(-1)
+            else:
+                want.append(pos >> 2)
+                pos += len(b)
+        storage = b"".join(bytes(b) for b in bufs if b is not None)
+        kinds = [type(x).__name__ for x in data[row]]
+        if offs[:6] != want:
+            return f"row of {kinds}: offsets {offs[:6]}, expected {want} (-1 exactly for the cells that have no record)"
+        if bytes(info.cell_storage_buffer) != storage:
+            return f"row of {kinds}: the row storage is not the concatenation of the cells' records in column order"
+        if info.cell_count != sum(b is not None for b in bufs):
+            return f"row of {kinds}: cell_count {info.cell_count} for {sum(b is not None for b in bufs)} records"
+        if info.tile_row_index != row:
+            return f"row {row}: tile_row_index {info.tile_row_index}"
+    return None
+
+
 def search_row_info(job):
-    return _try(["shape:3x3", "shape:257x2", "shape:2x300", "shape:12x1000", "formats", "styles"], ["tiles", "open"])
+    try:
+        d = _row_records()
+    except Exception as e:  # noqa: BLE001
+        d = f"recalculate_row_info raised {type(e).__name__}: {e}"
+    if d:
+        return {"violated": True, "detail": d, "job": {"custom": "replay_row_records"}}
+    return _try(["shape:3x3", "shape:257x2", "shape:2x300", "shape:12x1000", "formats", "styles", "merges"], ["tiles", "open"])
+
+
+def replay_row_records(job):
+    d = _row_records()
+    return {"violated": bool(d), "detail": d or ""}
 
 
 def search_store(job):
